@@ -402,9 +402,18 @@ def _propose(rnd, st):
             return None
         fs = sorted({_freq_of(st, A[n]) for n in q if A[n].start is not None})
         fspan = NONE
-        if fs and rnd.random() < 0.4:
+        if fs and rnd.random() < 0.45:
             lo, hi = sorted((rnd.randint(-4, 10), rnd.randint(-4, 10)))
-            fspan = (rnd.choice(fs), lo, hi)
+            shape = rnd.choice(("span", "span", "stepped", "backward", "list"))
+            if shape == "span":
+                P = tuple(range(lo, hi + 1))
+            elif shape == "stepped":
+                P = tuple(range(lo, hi + 1, rnd.choice((2, 3))))
+            elif shape == "backward":
+                P = tuple(range(hi, lo - 1, -1))
+            else:
+                P = tuple(rnd.sample(range(lo, hi + 1), rnd.randint(1, min(4, hi - lo + 1))))
+            fspan = (rnd.choice(fs), P)
         rndg = rnd.choice((NONE, NONE, 2, 1, 0)) if st.scale == 100 else rnd.choice((NONE, 0, 3))
         if st.scale == 1 and rndg == 3:
             rndg = NONE
@@ -442,7 +451,12 @@ def _apply_traced(st, op, h, g, k, tmpdir, step):
             kw["round"] = int(rndg)
         if not is_mv(fspan):
             w = world(fspan[0])
-            kw["frequency_span"] = {FREQ_ENUM[fspan[0]]: ir.Span(w.per(fspan[1]), w.per(fspan[2]))}
+            P = tuple(fspan[1])
+            step = (P[1] - P[0]) if len(P) > 1 else 1
+            if len(P) > 1 and step != 0 and all(b - a == step for a, b in zip(P, P[1:])):
+                kw["frequency_span"] = {FREQ_ENUM[fspan[0]]: ir.Span(w.per(P[0]), w.per(P[-1]), step)}
+            else:
+                kw["frequency_span"] = {FREQ_ENUM[fspan[0]]: tuple(w.per(t) for t in P)}
         src_freq = {n: _freq_of(st, A[n]) for n in kw["names"]}
         path = os.path.join(tmpdir, "t%d.csv" % step)
         A.to_csv_file(path, **kw)
